@@ -170,11 +170,19 @@ pub fn walk_back(v: &StoreView) -> (Vec<Uuid>, Uuid) {
 
 /// the parent of the very first version (nil unless the first client used another id, which the
 /// protocol allows while no version exists)
-fn chain_root(w: &WorldB, full_chain: &[Uuid]) -> Uuid {
-    match full_chain.first() {
-        Some(f) => w.calls.iter().find(|c| matches!(&c.result, ResB::AddOk(x) if x == f)).map(|c| c.parent).unwrap_or(Uuid::nil()),
-        None => Uuid::nil(),
-    }
+fn chain_root(_w: &WorldB, full_chain: &[Uuid]) -> Uuid {
+    let Some(first) = full_chain.first() else { return Uuid::nil() };
+    // read it off the name under which the first version was uploaded (the call itself may have
+    // ended in an injected error after the version was committed)
+    with_osw(|o| {
+        o.events
+            .iter()
+            .filter(|e| e.op == "put")
+            .filter_map(|e| parse_vname(&e.name))
+            .find(|(_, c)| c == first)
+            .map(|(p, _)| p)
+            .unwrap_or(Uuid::nil())
+    })
 }
 
 // ---- scenarios ---------------------------------------------------------------------------------------
@@ -805,7 +813,14 @@ pub fn gen_c09(seed: u64, i: u64, _thorough: bool) -> Value {
         }
         scripts.push(sc);
     }
-    serde_json::to_value(ScB { check: "C09".into(), seed: s, nodes, scripts, sched_seed: rng.next_u64(), list_mode: rng.below(2) as u8, max_page: *rng.pick(&[1usize, 2, 3, 1000]), dice: 0, faults: vec![], atomic: false }).unwrap()
+    // in a third of the runs clients fail or stop at seeded object-store requests
+    let mut faults = Vec::new();
+    if rng.chance(1, 3) {
+        for _ in 0..1 + rng.usize_below(4) {
+            faults.push((rng.usize_below(nodes), rng.usize_below(8), 1 + rng.below(12) as u32, *rng.pick(&[Decision::FailBefore, Decision::FailAfter, Decision::Crash])));
+        }
+    }
+    serde_json::to_value(ScB { check: "C09".into(), seed: s, nodes, scripts, sched_seed: rng.next_u64(), list_mode: rng.below(2) as u8, max_page: *rng.pick(&[1usize, 2, 3, 1000]), dice: 0, faults, atomic: false }).unwrap()
 }
 
 pub fn gen_c10(seed: u64, i: u64, _thorough: bool) -> Value {
